@@ -470,7 +470,11 @@ func (s *clientSocket) emitBuffered() {
 				// returning here would leave the rest of the buffered events and the send buffer behind.
 				continue
 			}
-			ackIDs[*event.header.ID] = true
+			// Only an acknowledgement that is sent here is recorded as sent: a handler that has an
+			// acknowledgement function may still call it after it has returned.
+			if send {
+				ackIDs[*event.header.ID] = true
+			}
 			mu.Unlock()
 
 			// If there is no acknowledgement function
